@@ -77,6 +77,11 @@ def catalogue():
     add('v-bad-utf8-close-reason', F(8, refws.close_payload(1000) + b'\xff'))
     add('v-control-too-long-header', b'\x89\x7e\x00\x7e' + b'abc')
     add('v-ping-after-first-violation', F(4, b'') + F(5, b'') + F(9, b''))
+    # complete messages and a Ping FIRST, the violation behind them
+    add('v-after-valid-reserved-opcode', F(1, b'hello') + F(9, b'p') + F(3, b'x'))
+    add('v-after-valid-rsv2', F(2, b'\x00\x01') + F(1, b'ok') + F(9, b'') + F(1, b'x', rsv=2) + F(1, b'later'))
+    add('v-after-valid-bad-utf8', F(1, b'a', fin=0) + F(0, b'b') + F(10, b'po') + F(1, b'\xff'))
+    add('v-after-valid-ping-126', F(1, b'first') + F(9, b'p' * 126))
     # compression negotiated
     zp = z_payload(b'aaaa')
     add('z-tiny', F(1, zp, rsv=4), z=True)
@@ -185,6 +190,9 @@ def cases(tier, seed, i, n):
             # three companions that start with different kinds of traffic
             for ck in range(3):
                 yield dict(kind='var', src='cat', si=si, seg='bytewise', cutseed=0, _env={'companion': si * 3 + ck})
+            # ... and with the application's logging at DEBUG (reference and variant alike)
+            yield dict(kind='var', src='cat', si=si, seg='bytewise', cutseed=0, _env={'debuglog': True})
+            yield dict(kind='var', src='cat', si=si, seg='random', cutseed=seed * 100 + 7, _env={'debuglog': True})
             for r in range(3 if tier == 'quick' else 200):
                 yield dict(kind='var', src='cat', si=si, seg='random', cutseed=seed * 100 + r)
         for li in range(24 if tier == 'quick' else 1600):
@@ -274,7 +282,8 @@ def observe(st, cuts):
 
 
 def reference(st):
-    key = st['name']
+    from .. import env as _env
+    key = (st['name'], bool(_env.CASE_ENV.get('debuglog')))
     if key not in _REF:
         if len(_REF) > 200:
             _REF.clear()
